@@ -66,15 +66,15 @@ Definition vfull (ps : vset) : bool := forallb (fun o => match o with Some _ => 
 Definition versions (ps : vset) : list nat := flat_map (fun o => match o with Some v => [v] | None => [] end) ps.
 Definition vinit (total k v : nat) : vset := set_slot k (Some v) (repeat None total).
 
-(* _update_payload_set on a fragment (slot k, of total, belonging to version v) *)
+(* _update_payload_set on a fragment (slot k, of total, belonging to version v): another total
+   starts a new set; a complete set is decoded at once (also a new one-fragment set) *)
 Definition vupdate (ps : vset) (total k v : nat) : vset * option nat :=
-  if negb (Nat.eqb total (length ps)) then (vinit total k v, None)
-  else let ps' := set_slot k (Some v) ps in
-       if negb (vfull ps') then (ps', None)
-       else match single_version (versions ps') with
-            | Some w => (ps', Some w)
-            | None => (vinit total k v, None)      (* zlib.error: start over with this fragment *)
-            end.
+  let ps1 := if Nat.eqb total (length ps) then set_slot k (Some v) ps else vinit total k v in
+  if negb (vfull ps1) then (ps1, None)
+  else match single_version (versions ps1) with
+       | Some w => (ps1, Some w)
+       | None => (vinit total k v, None)      (* zlib.error: start over with this fragment *)
+       end.
 
 Fixpoint vfeed (ps : vset) (last : option nat) (frs : list (nat * nat * nat)) : vset * option nat :=
   match frs with
@@ -82,3 +82,29 @@ Fixpoint vfeed (ps : vset) (last : option nat) (frs : list (nat * nat * nat)) : 
   | (total, k, v) :: t => let '(ps', r) := vupdate ps total k v in
                           vfeed ps' (match r with Some w => Some w | None => last end) t
   end.
+
+(* ---- the fetch loop of _get_schedule against a controller that holds version v in [total]
+   fragments throughout: forget slot 0, then request the first missing fragment until a
+   schedule is assembled.  Stuck = no slot is missing and no schedule (StopIteration). ---- *)
+Fixpoint first_none (ps : vset) : option nat :=
+  match ps with
+  | [] => None
+  | None :: _ => Some 0
+  | Some _ :: t => match first_none t with Some k => Some (S k) | None => None end
+  end.
+
+Inductive fres := Got (w exchanges : nat) | Stuck | OutOfFuel.
+
+Fixpoint fetch_loop (fuel : nat) (ps : vset) (total v n : nat) : fres :=
+  match fuel with
+  | O => OutOfFuel
+  | S f =>
+      match first_none ps with
+      | None => Stuck
+      | Some k => let '(ps', r) := vupdate ps total k v in
+                  match r with Some w => Got w (S n) | None => fetch_loop f ps' total v (S n) end
+      end
+  end.
+
+Definition fetch (ps : vset) (total v : nat) : fres :=
+  fetch_loop (2 * total) (set_slot 0 None ps) total v 0.
